@@ -154,7 +154,7 @@ func body(c *runner.Ctx, faults bool) {
 			var field string
 			var id int64
 			if c.Choose(5, "fault-root") == 0 {
-				field = []string{"Query.as", "Query.us", "Query.u1", "Query.bs", "Query.a"}[c.Choose(5, "fault-root-field")]
+				field = []string{"Query.as", "Query.us", "Query.u1", "Query.bs", "Query.a", "Query.ds"}[c.Choose(6, "fault-root-field")]
 				if field == "Query.a" {
 					id = int64(c.Choose(w.nA+1, "fault-a-i"))
 				}
@@ -165,6 +165,8 @@ func body(c *runner.Ctx, faults bool) {
 					id = int64(100 + c.Choose(w.nA, "fault-id"))
 				case 'B':
 					id = int64(200 + c.Choose(w.nB, "fault-id"))
+				case 'D':
+					id = int64(400 + c.Choose(len(w.ds), "fault-id"))
 				default:
 					id = int64(300 + c.Choose(w.nC, "fault-id"))
 				}
